@@ -624,6 +624,7 @@ func respell(id, how string) string {
 
 // TestC04Concurrent — verification of one request is independent of other requests being verified at the same time.
 func TestC04Concurrent(t *testing.T) {
+	defer vt.Watch("TestC04Concurrent", 120*time.Second)()
 	rec := vt.For("C04")
 	rec.Rule("concurrent verification (free-running, -race): 2-8 goroutines submit correctly signed and single-alteration requests of different identities and endpoints at the same instant; oracle: every unaltered request passes verification and every altered one is refused, exactly as when sent alone; any race report fails; distinct by the request mix")
 	rapid.Check(t, func(rt *rapid.T) {
